@@ -1086,12 +1086,12 @@ pub fn run(ctx: &mut Ctx, p: Prop) -> &'static str {
         _ => {}
     }
     match p {
-        Prop::C01 => "random digraphs (rings, grids, two components, dense with parallel edges and self loops), tie-heavy / generic / metric lengths, Dijkstra and A* with weight factors 0..10, forward and reverse, vertex and edge orientation, with the full model stack; non-trivial = successful search with a route of >= 2 edges or a tree of >= 3 entries, distinct by full output",
+        Prop::C01 => "random digraphs (rings, grids, two components, dense with parallel edges and self loops), tie-heavy / generic / metric lengths, Dijkstra and A* with weight factors 0..10, forward and reverse, vertex and edge orientation, with the full model stack, followed by a k-shortest-paths stream (single-via vertex- and edge-oriented, Yen where it returns: every single-via route and the first Yen route judged by the same walk oracle; lollipop and edge-oriented multi-route shapes first); non-trivial = successful search with a route of >= 2 edges or a tree of >= 3 entries (KSP: at least two routes), distinct by full output",
         Prop::C02 => "state-independent non-negative costs (distance / speed models, raw / factor / combined rates, per-edge surcharges), no access model, edge-local restrictions, half of the cases metrically consistent; Bellman-Ford oracle; non-trivial as C01",
-        Prop::C03 => "all unit configurations of distance / speed models and turn-delay access models; per-edge re-accumulation with the real unit functions; non-trivial as C01",
-        Prop::C04 => "road-class, vehicle-restriction (mixed units, values straddling limits), turn-restriction and edge-cut models and their combinations; non-trivial as C01",
+        Prop::C03 => "all unit configurations of distance / speed models and turn-delay access models; per-edge re-accumulation with the real unit functions, also along every alternative of a k-shortest-paths stream (turn delays, junction of the two halves included); non-trivial as C01",
+        Prop::C04 => "road-class, vehicle-restriction (mixed units, values straddling limits), turn-restriction and edge-cut models and their combinations, also on every alternative of a k-shortest-paths stream; non-trivial as C01",
         Prop::C05 => "disconnected and restricted graphs, with and without destination; BFS oracle over permitted edges; non-trivial as C01",
-        Prop::C10 => "iteration / solution-size / runtime limits (virtual clock) and combinations from zero to beyond need; non-trivial = successful non-trivial search or explicit termination",
+        Prop::C10 => "iteration / solution-size / runtime limits (virtual clock) and combinations from zero to beyond need, followed by a k-shortest-paths stream (single-via and returning Yen runs: each underlying search within its limits, result identical to the unlimited query or the explicit terminated error); non-trivial = successful non-trivial search or explicit termination",
     }
 }
 
